@@ -1,3 +1,4 @@
+pub mod graph;
 pub mod names;
 pub mod rust;
 pub mod ty;
